@@ -2,12 +2,12 @@ package verifsim
 
 import (
 	"bytes"
-	"reflect"
 	"context"
 	"encoding/json"
 	"fmt"
 	"os"
 	"path/filepath"
+	"reflect"
 	"sort"
 	"strings"
 	"sync"
